@@ -28,7 +28,12 @@ def run(ck: Checker):
              f'gate types without a CNF handler: {missing} (process_gate raises KeyError for them)',
              construct='_operations keys')
     for t, (hmod, hname, vnode, knode) in table.items():
-        h = hmod.func(hname)
+        h = table.nodes[t]
+        if not isinstance(h, ast.FunctionDef) or getattr(table.calls[t], 'closure', None) is not None:
+            # a handler that is not a plain function (partial application, closure, callable record): its signature is what
+            # C05.TPL exercises by calling it with (cnf, top_lit, lits)
+            ck.ok('C05.REG', hmod, h, f'handler of {t} is the callable `{hname}` (called with (cnf, top_lit, lits) by C05.TPL)', construct=f'_operations[{t}] = {hname}')
+            continue
         a = h.args
         npos = len(a.posonlyargs) + len(a.args)
         ck.check(npos == 3 and not a.vararg and not a.kwonlyargs, 'C05.REG', hmod, h,
@@ -40,15 +45,15 @@ def run(ck: Checker):
     # ---- C05.TPL ---------------------------------------------------------
     ck.rule('C05.TPL', 'for each type and each legal arity the emitted clause set is equivalent to top <-> f(operands), exhaustively over 2^(n+1) assignments')
     for t, (hmod, hname, vnode, knode) in table.items():
-        h = hmod.func(hname)
+        h = table.nodes[t]
         if t == 'INPUT':
             for n in (0,):
-                cnf = ct.clauses_of(repo, hmod, hname, n)
+                cnf = ct.clauses_of(repo, hmod, hname, n, call=table.calls[t])
                 ck.check(cnf == [], 'C05.TPL', hmod, h, 'INPUT emits no clause',
                          f'handler of INPUT emitted {cnf!r}', construct=f'{hname} for INPUT arity 0')
             continue
         for n in semantics.arities(t, max_nary):
-            cnf = ct.clauses_of(repo, hmod, hname, n)
+            cnf = ct.clauses_of(repo, hmod, hname, n, call=table.calls[t])
             cons = f'{hname} for {t} arity {n}'
             if isinstance(cnf, str):
                 ck.bad('C05.TPL', hmod, h, f'{t} with {n} operands is encodable',
